@@ -96,4 +96,15 @@ CHECKS = {
            "models outside the family (the metrics are map/filter/aggregate compositions over listings decided by C03)."),
   "design_ref": "DESIGN.md §5 C17", "note": _NOTE,
   "technique": "static analysis: formula evaluation of the metrics pipeline ASTs (incl. decorator discovery and dependency source) over abstract models; identities and definitions as oracles"},
+ "C05": {
+  "text": ("CODEC closure by composing writer and reader source: for each class of each dimension JSON carries (relation "
+           "order types over the well-formed cardinality domain, abstract flag with exact type, name shapes by the "
+           "character classes the encoder observes, attribute value kinds, the eight logical operators at every "
+           "position, n-ary chains, constraint names) JSONWriter.transform is evaluated from source into its document, "
+           "JSONReader.transform / parse_json are evaluated from source on it, and the abstract models are compared "
+           "field by field; a further cycle must reproduce model and text; returned value = text written (UTF-8); "
+           "parse_json agrees with transform; n-ary documents keep all operands. Not decided: interactions between "
+           "dimensions beyond the combined abstract model."),
+  "design_ref": "DESIGN.md §5 C05", "note": _NOTE,
+  "technique": "static analysis: writer/reader agreement (CODEC) by evaluating both transformation ASTs over finite abstractions of every carried dimension; virtual file system; json library applied to the evaluated document"},
 }
